@@ -228,6 +228,15 @@ type Wrapper struct {
 
 func (w Wrapper) Unwrap() el.Node { return w.Inner }
 
+// CWrapper is a decorator that closes AND unwraps: NodeController.Close asks for a Closer before it
+// unwraps, so the Broker must call the decorator's own Close and leave the wrapped node to it.
+type CWrapper struct {
+	CNode
+	Inner el.Node
+}
+
+func (w CWrapper) Unwrap() el.Node { return w.Inner }
+
 // NewNode builds a recording node; with closer=true the returned value
 // implements Closer.
 func NewNode(l *Log, name string, typ el.NodeType, s Script, gate *vrt.Gate) *Node {
